@@ -100,11 +100,37 @@ def big_slices(exe, driver, cfg):
         if a != m:
             dis.append({'what': '&[%s] of length %d: implementation %s, model length clause %s [%s]' % (kind, n, a, m, cfg)})
         want = 'err InvalidData' if n >= 2 ** 32 else 'ok ' + (n.to_bytes(4, 'little').hex())
-        if a is None or not a.startswith(want):
+        # below 2^32: exactly the four prefix bytes (zero-sized elements add nothing); at or above: a refusal with InvalidData
+        if a is None or (a != want if n < 2 ** 32 else not a.startswith(want)):
             fails.append({'class': 'length-prefix', 'key': 'zstslice %s %d' % (kind, n),
                           'what': 'a slice of %d zero-sized elements: expected %s, implementation %s [%s]' % (n, want, a, cfg),
                           'replay_cmd': "printf '%s\\n' | <harness-%s>" % (lines[i], cfg)})
     return dis, fails, rows
+
+
+def big_collections(exe, cfg):
+    """Collections of 257, 300 and 70001 elements of every kind that writes its own length prefix (implementation only: the
+    model's insertion sort is quadratic): the prefix is the element count on four little-endian bytes, the length is
+    prefix + elements, the value round-trips, sorted and hashed kinds are written in ascending order."""
+    kinds = [('btreeset', 4, True), ('hashset', 4, True), ('indexset', 4, False), ('list', 4, False), ('deque', 4, False),
+             ('btreemap', 5, True), ('hashmap', 5, True), ('indexmap', 5, False)]
+    ns = [257, 300, 70001]       # coprime with the scrambling multiplier: exactly n distinct elements
+    lines = [case_line('q%s%d' % (k, n), 'bigcoll', '-', '-', k, n) for k, _, _ in kinds for n in ns]
+    impl = run_cases(exe, lines, shards=4)
+    fails, rows = [], []
+    for k, w, srt in kinds:
+        for n in ns:
+            a = impl.get('q%s%d' % (k, n)) or ''
+            f = dict(x.split('=', 1) for x in a.split(' ')[1:] if '=' in x)
+            rows.append({'kind': k, 'elements': n, 'impl': a})
+            ok = (a.startswith('ok ') and f.get('prefix') == n.to_bytes(4, 'little').hex() and f.get('len') == str(4 + w * n)
+                  and f.get('rt') == 'same' and (not srt or f.get('elems') == 'ascending'))
+            if not ok:
+                fails.append({'class': 'length-prefix', 'key': 'bigcoll %s %d' % (k, n),
+                              'what': 'a %s of %d elements: expected prefix %s, %d bytes, a round trip%s; implementation: %s [%s]'
+                                      % (k, n, n.to_bytes(4, 'little').hex(), 4 + w * n, ' and ascending entries' if srt else '', a, cfg),
+                              'replay_cmd': "printf 'q\\tbigcoll\\t-\\t-\\t%s\\t%d\\n' | <harness-%s>" % (k, n, cfg)})
+    return fails, rows
 
 
 def huge_seqs(exe, cfg):
@@ -159,6 +185,11 @@ def run(tier, seed, t0):
         failures += f
         stats['big_slices'][cfg] = rows
         stats['evaluations'] += len(rows)
+        if cfg == 'std-strict':
+            f, rows = big_collections(exe, cfg)
+            failures += f
+            stats['big_collections'] = rows
+            stats['evaluations'] += len(rows)
         if tier != 'quick' and cfg == 'std-strict':
             f, rows = huge_seqs(exe, cfg)
             failures += f
